@@ -129,6 +129,9 @@ class IndexDomain(ArrNormDomain):
         if dotted.rsplit('.', 1)[-1] in ('fftshift', 'ifftshift', 'fft2', 'ifft2', 'fft', 'ifft', 'abs', 'absolute', 'real', 'angle', 'copy') \
                 and args and isinstance(args[0], Shaped) and 's' not in kwargs and len(args) == 1:
             return Shaped(args[0].shape, args[0].label)
+        if dotted == 'numpy.broadcast_to' and len(args) == 2 and isinstance(args[0], Shaped) and isinstance(args[1], Tup):
+            self.interp.emit('broadcast', target=args[0], shape=args[1], node=node)
+            return Shaped(Tup(list(args[1].items)), args[0].label, origin=('broadcast', args[0]))
         if dotted == 'builtins.hasattr' and len(args) == 2 and isinstance(args[0], (Shaped, Ranged)) and isinstance(args[1], Const):
             return Const(args[1].v in ('ndim', 'shape', 'dtype', 'size', '__len__', 'T', 'real', 'imag', 'astype', 'conj', '__iter__', 'copy'))
         if dotted == 'builtins.len' and args and isinstance(args[0], Shaped) and args[0].shape.items:
@@ -166,6 +169,23 @@ class IndexDomain(ArrNormDomain):
         if isinstance(v, Shaped):
             if name in ('astype', 'copy', 'conj'):
                 return Shaped(v.shape, v.label)
+            if name == 'reshape':
+                shp = args[0] if len(args) == 1 else Tup(args)
+                if isinstance(shp, Tup):
+                    self.interp.emit('reshape', target=v, shape=shp, node=node)
+                    return Shaped(Tup(list(shp.items)), v.label, origin=('reshape', v))
+                return Unknown('reshape')
+            if name in ('mean', 'sum', 'max', 'min', 'std', 'median'):
+                ax = kwargs.get('axis', args[0] if args else None)
+                if ax is None:
+                    return Unknown('scalar reduction')
+                axes = [a.v for a in ax.items] if isinstance(ax, Tup) and all(isinstance(a, Const) for a in ax.items) else ([ax.v] if isinstance(ax, Const) else None)
+                if axes is None:
+                    return Unknown('reduction over unknown axes')
+                nd = len(v.shape.items)
+                axes = [a % nd for a in axes]
+                self.interp.emit('reduce', which=name, target=v, axes=axes, lengths=[v.shape.items[a] for a in axes], node=node)
+                return Shaped(Tup([d for i, d in enumerate(v.shape.items) if i not in axes]), v.label, origin=('reduce', name, v, axes))
             return Unknown('method %s on array' % name)
         return ArrNormDomain.method(self, v, name, args, kwargs, node)
 
@@ -174,17 +194,21 @@ class IndexDomain(ArrNormDomain):
             self.interp.emit('subscript', target=v, index=idx, node=node)
             items = idx.items if isinstance(idx, Tup) else [idx]
             shape = []
-            for k, d in enumerate(v.shape.items):
-                if k < len(items):
-                    s = items[k]
-                    if isinstance(s, Slice):
-                        lo = s.lo if not (isinstance(s.lo, Const) and s.lo.v is None) else Const(0)
-                        hi = s.hi if not (isinstance(s.hi, Const) and s.hi.v is None) else d
-                        shape.append(self.interp.binop(ast.Sub(), hi, lo, node))
-                    else:
-                        continue
-                else:
-                    shape.append(d)
+            dims = list(v.shape.items)
+            k = 0
+            for s in items:
+                if isinstance(s, Const) and s.v is None:
+                    shape.append(Const(1))          # np.newaxis
+                    continue
+                if k >= len(dims):
+                    break
+                d = dims[k]
+                k += 1
+                if isinstance(s, Slice):
+                    lo = s.lo if not (isinstance(s.lo, Const) and s.lo.v is None) else Const(0)
+                    hi = s.hi if not (isinstance(s.hi, Const) and s.hi.v is None) else d
+                    shape.append(self.interp.binop(ast.Sub(), hi, lo, node))
+            shape.extend(dims[k:])
             return Shaped(Tup(shape), v.label + '[..]', origin=('slice', v, idx))
         return ArrNormDomain.subscript(self, v, idx, node)
 
